@@ -11,7 +11,7 @@ From RU Require Import Base.Prelude Base.Utf8 Base.Utf8Facts Model.AsciiSet Gen.
   Proofs.ListN Proofs.C14_Enc Proofs.C02_Enc Proofs.C02_Parts Proofs.C02_Opaque Proofs.C02_Path Proofs.C02_PathL1
   Proofs.C02_Reach Proofs.C02_AuthParts Proofs.C02_Auth Proofs.C02_AuthWf Proofs.C02_PathSp Proofs.C02_AuthSp
   Proofs.C02_AuthMain Proofs.C02_Hist Proofs.C02_HistInst Proofs.C02_SetQF Proofs.C02_Canon Proofs.C02_SetPort
-  Proofs.C02_ReachPartial.
+  Proofs.C02_JoinTail Proofs.C02_ReachPartial.
 From RU Require Import Model.Host Proofs.C09_Host Proofs.C16_RT6Model.
 Open Scope string_scope.
 Open Scope N_scope.
@@ -571,11 +571,51 @@ Theorem C02_set_port_shape : forall dbg F R se ue hs hi pt p' q f,
 Proof. exact set_port_internal_frame. Qed.
 Print Assumptions C02_set_port_shape.
 
+(* joins (G1, first part): a scheme-less reference that is - after trimming and tab/newline removal - empty,
+   fragment-only ("#...") or query-led ("?...", possibly followed by "#...") against a Canon base (for "#..." any
+   Canon base, also an opaque-path one; otherwise a cannot-be-a-base base is refused by the parser): the result is
+   Canon, hence a fixpoint.  The base's encoding override must be absent or its scheme non-special.  The path
+   arms of the relative state (path-absolute, path-relative, scheme-relative) are NOT covered. *)
+Theorem C02_join_tail_Canon : forall dbg hp hpo hd, HostRT hp hpo hd -> forall ovr b input u,
+  Canon hp hpo hd b -> usv_list input -> tail_ref input = true ->
+  (ovr = None \/ st_is_special (scheme_type_of (b_scheme b)) = false) ->
+  parse_url dbg hp hpo hd ovr (Some b) input = POk u -> Canon hp hpo hd u.
+Proof. exact join_tail_Canon. Qed.
+Print Assumptions C02_join_tail_Canon.
+
+Theorem C02_join_tail_fixpoint : forall dbg hp hpo hd, HostRT hp hpo hd -> forall ovr b input u,
+  Canon hp hpo hd b -> usv_list input -> tail_ref input = true ->
+  (ovr = None \/ st_is_special (scheme_type_of (b_scheme b)) = false) ->
+  parse_url dbg hp hpo hd ovr (Some b) input = POk u ->
+  Fixpoint_of_reparse dbg hp hpo hd u /\ wf_b u = true /\ ascii (ser u).
+Proof. exact join_tail_fixpoint. Qed.
+Check C02_join_tail_fixpoint : forall dbg hp hpo hd, HostRT hp hpo hd -> forall ovr b input u,
+  Canon hp hpo hd b -> usv_list input -> tail_ref input = true ->
+  (ovr = None \/ st_is_special (scheme_type_of (b_scheme b)) = false) ->
+  parse_url dbg hp hpo hd ovr (Some b) input = POk u ->
+  parse_url dbg hp hpo hd None None (utf8_lossy (ser u)) = POk u /\ wf_b u = true /\ ascii (ser u).
+Print Assumptions C02_join_tail_fixpoint.
+
+Example C02_join_tail_inhabited :
+  tail_ref (B " #x y") = true /\ tail_ref (B "?a b#c") = true /\ tail_ref (B "  ") = true
+  /\ tail_ref (B "x") = false /\ tail_ref (B "a:b") = false
+  /\ match parse_url true ex_hp ex_hp ex_hd None None (B "http://h/p?q#f") with
+     | POk b => match parse_url true ex_hp ex_hp ex_hd None (Some b) (B "?a b#c") with
+                | POk u => list_eqb (ser u) (B "http://h/p?a%20b#c") | _ => false end
+                && match parse_url true ex_hp ex_hp ex_hd None (Some b) (B " #x y") with
+                   | POk u => list_eqb (ser u) (B "http://h/p?q#x%20y") | _ => false end
+                && match parse_url true ex_hp ex_hp ex_hd None (Some b) (B "") with
+                   | POk u => list_eqb (ser u) (B "http://h/p?q") | _ => false end
+     | _ => false
+     end = true.
+Proof. exact join_tail_examples. Qed.
+
 (* C02_statement restricted to the histories  Url::parse (no base, non-file scheme; special schemes without
    encoding override)  followed by any number of set_fragment / set_query / set_port calls with arbitrary
-   arguments (ReachC): every record of such a history is a fixpoint of re-parsing, satisfies wf_b and is ASCII.
+   arguments and of joins with a tail_ref reference (ReachC): every record of such a history is a fixpoint of re-parsing, satisfies wf_b and is ASCII.
    ReachC is inside Reachable2, the quantifier of C02_statement.
-   Still missing for C02_statement: the file scheme, joins, an encoding override on special schemes, the other
+   Still missing for C02_statement: the file scheme, joins through the path arms of the relative state and
+   absolute references against a base, an encoding override on special schemes, the other
    sixteen mutators (set_username / set_password / set_host / set_ip_host / set_path / set_scheme,
    path_segments_mut, the quirks setters). *)
 Theorem C02_reach_partial : forall dbg hp hpo hd, HostOK2 hp hpo hd -> forall u, ReachC dbg hp hpo hd u ->
